@@ -525,6 +525,56 @@ func init() {
 				})
 			})
 		}
+		// trees in which one name is a leaf in one place and has children in another, and file-like names that carry
+		// children (what each node is depends on the node, not on its name)
+		for _, t := range []tr{
+			{[]int{1, 2, 2, 3, 4}, []string{"r", "b.go", "a", "b.go", "x"}},
+			{[]int{1, 2, 3, 2}, []string{"r", "b.go", "x", "b.go"}},
+			{[]int{1, 2, 1, 2, 3}, []string{"a", "b.go", "c", "b.go", "b.go"}},
+			{[]int{1, 2, 3, 3, 2}, []string{"r", "v1.go", "a.go", "b.go", "z.go"}},
+		} {
+			if !c.Take() {
+				continue
+			}
+			for _, mx := range []string{"", "massive"} {
+				for _, ex := range [][]string{{".go"}, {".go", "a"}, nil} {
+					c.StateN(1)
+					c.Nontrivial()
+					c08Case(c, c08Replay{Kind: "c08", Depth: t.d, Names: t.names, Strict: true, Form: "abs", Route: "md", MkDepth: t.d, MkNames: t.names, MkExts: ex, MkSame: true, MkExtra: mx})
+				}
+			}
+		}
+		// many roots with the massive option: every root differs (absent, or with an extra entry); the call returns
+		// with an error (which differing root it reports is up to the schedule)
+		for _, R := range []int{3, 11, 12, 13, 25, 40} {
+			if !c.Take() || c.Expired() {
+				continue
+			}
+			var doc strings.Builder
+			pre := map[string]byte{}
+			for i := 0; i < R; i++ {
+				fmt.Fprintf(&doc, "- root%02d\n  - k\n", i)
+				pre[fmt.Sprintf("root%02d/k/extra", i)] = 'd'
+			}
+			for _, strict := range []bool{false, true} {
+				j := fsx.NewJail("c08m")
+				if strict {
+					fsx.Populate(j.Target, pre)
+				}
+				var err error
+				opts := append([]gtree.Option{gtree.WithTargetDir(j.Target)}, extraOpts("massive", "")...)
+				if strict {
+					opts = append(opts, gtree.WithStrictVerify())
+				}
+				pan := guardMaybeMassive(true, func() { err = gtree.VerifyFromMarkdown(strings.NewReader(doc.String()), opts...) })
+				c.Eval()
+				c.StateN(1)
+				if pan != "" || err == nil {
+					c.Violation("C08|massive-many-differing-roots", fmt.Sprintf("%d roots, each differing (strict=%v): err=%v %s", R, strict, err, pan), R, nil)
+				}
+				j.Remove()
+			}
+		}
 		for _, A := range trees {
 			for _, B := range trees {
 				if !c.Take() || c.Expired() {
